@@ -12,6 +12,7 @@ import (
 	"os"
 	"reflect"
 	"regexp"
+	"runtime/pprof"
 	"strings"
 
 	"verif/core"
@@ -38,12 +39,13 @@ func init() {
 
 // Step is one driver call.
 type Step struct {
-	Op  int      `json:"op"`  // 0 next, 1 throw, 2 return; async: 0 resolve, 1 reject
-	K   int      `json:"k"`   // async: the deferred promise
-	V   int      `json:"v"`   // the value sent
-	Ctx int      `json:"ctx"` // driver context (index into ctxNames)
-	Res string   `json:"res"` // model: rendering of the result
-	Log []string `json:"log"` // model: log lines of this step
+	Op  int      `json:"op"`           // 0 next, 1 throw, 2 return; async: 0 resolve, 1 reject
+	K   int      `json:"k"`            // async: the deferred promise
+	V   int      `json:"v"`            // the value sent
+	Ctx int      `json:"ctx"`          // driver context (index into ctxNames)
+	Res string   `json:"res"`          // model: rendering of the result
+	Log []string `json:"log"`          // model: log lines of this step
+	At  string   `json:"at,omitempty"` // model: where the generator was suspended when the call arrived
 }
 
 func (s Step) String() string {
@@ -71,12 +73,13 @@ func modelTraces(p *gm.Program, maxLen int) (traces [][]Step, nodes int, unsup s
 			doneBefore := false
 			for i, o := range h {
 				doneBefore = m.Done()
+				at := m.Where()
 				res, lg, err := m.Step(o, float64(sentValue(i, o)))
 				if err != nil {
 					unsup = err.Msg
 					break
 				}
-				tr[i] = Step{Op: o, V: sentValue(i, o), Res: res, Log: append([]string{}, lg...)}
+				tr[i] = Step{Op: o, V: sentValue(i, o), Res: res, Log: append([]string{}, lg...), At: at}
 			}
 			m.Close()
 			if unsup != "" {
@@ -120,7 +123,7 @@ function batch(l) { for (var i = 0; i < l.length; i++) settle(l[i][0], l[i][1], 
 `
 
 func newEngine() *engine {
-	e := &engine{rt: goja.New(), limit: 2000000}
+	e := &engine{rt: goja.New(), limit: 4000}
 	e.rt.Set("log", func(s string) { e.log = append(e.log, s) })
 	if _, err := e.rt.RunProgram(preludePrg); err != nil {
 		panic(err)
@@ -255,6 +258,8 @@ func (e *engine) genStep(self *goja.Object, ctx, op, v int) (res string, log []s
 // idleFault compares the VM's idle state with the one right after loading the prelude.
 func (e *engine) idleFault() *fault {
 	s := goja.VerifIdle(e.rt)
+	// the program counter / program / argument count of an idle VM carry no meaning
+	s.PC, s.PrgNil, s.Args = e.idle0.PC, e.idle0.PrgNil, e.idle0.Args
 	if s != e.idle0 {
 		return &fault{"vm-not-idle", idleDiff(e.idle0, s)}
 	}
@@ -275,8 +280,9 @@ func idleDiff(a, b goja.VerifIdleState) string {
 // ---- worker ----
 
 type worker struct {
-	r   *core.Run
-	eng *engine
+	r    *core.Run
+	eng  *engine
+	seen map[string]bool // signatures already confirmed by this worker
 }
 
 func (w *worker) engine() *engine {
@@ -421,35 +427,15 @@ func logKind(s string) string {
 	return h
 }
 
-// genSig builds the signature of a generator-part divergence: what the diverging call was, in which state
-// (first call / after a yield / after completion), the driver context class, and how the outcome differs -
-// plus the innermost construct of the body so that different breakages are kept apart.
+// genSig builds the signature of a generator-part divergence: the diverging call, the syntactic position
+// of the yield the generator was suspended at when the call arrived (or start / completed), and how the
+// outcome differs. Different breakages of the property therefore get different signatures.
 func genSig(c Case, hist []Step, at int, class string) string {
 	st := hist[at]
-	state := "suspended"
-	if at == 0 {
-		state = "start"
-	} else {
-		prev := resKind(hist[at-1].Res)
-		if prev == "done" || strings.HasPrefix(prev, "throws") {
-			state = "completed"
-		}
-		// (a throw that was caught inside the body shows as yield/done of that step, so "throws" = completed)
-	}
-	ctx := "top"
-	if st.Ctx != 0 {
-		ctx = "nested-driver"
-	}
-	return fmt.Sprintf("gen|%s@%s|%s|%s|%s", gm.OpNames[st.Op], state, ctx, class, bodyClass(c.Name))
+	return fmt.Sprintf("gen|%s|at:%s|%s", gm.OpNames[st.Op], st.At, class)
 }
 
-var reNum = regexp.MustCompile(`\d+`)
-
-// bodyClass reduces a body name to its construct names (digits of flag sets kept, constants dropped).
-func bodyClass(name string) string {
-	name = strings.TrimSuffix(name, " [captured]")
-	return name
-}
+func bodyClass(name string) string { return strings.TrimSuffix(name, " [captured]") }
 
 // ---- run ----
 
@@ -497,6 +483,12 @@ func run(r *core.Run) {
 	}
 	if s := os.Getenv("C09_HISTLEN"); s != "" {
 		fmt.Sscan(s, &histLen)
+	}
+	if pf := os.Getenv("C09_PROF"); pf != "" {
+		if f, err := os.Create(pf); err == nil {
+			pprof.StartCPUProfile(f)
+			defer pprof.StopCPUProfile()
+		}
 	}
 	only := os.Getenv("C09_ONLY")
 	workers := make([]*worker, r.Workers)
@@ -628,6 +620,14 @@ func histResults(h []Step) []string {
 
 // report re-runs the failing case 5 times on fresh engines before recording it.
 func (w *worker) report(sig string, vc *VCase) {
+	if w.seen[sig] {
+		w.r.Violation(sig, describe(vc), vc)
+		return
+	}
+	if w.seen == nil {
+		w.seen = map[string]bool{}
+	}
+	w.seen[sig] = true
 	for i := 0; i < 5; i++ {
 		sig2, vc2 := replayCase(vc)
 		if vc2 == nil || sig2 != sig {
@@ -676,12 +676,13 @@ func replayCase(vc *VCase) (sig string, out *VCase) {
 		m := gm.NewGenMachine(vc.Prog)
 		h := make([]Step, len(vc.History))
 		for i, st := range vc.History {
+			at := m.Where()
 			res, lg, err := m.Step(st.Op, float64(st.V))
 			if err != nil {
 				m.Close()
 				return "", nil
 			}
-			h[i] = Step{Op: st.Op, V: st.V, Ctx: st.Ctx, Res: res, Log: append([]string{}, lg...)}
+			h[i] = Step{Op: st.Op, V: st.V, Ctx: st.Ctx, Res: res, Log: append([]string{}, lg...), At: at}
 		}
 		m.Close()
 		_, out, sig = w.runGenHistory(c, vc.Prog.JS(false), h, true)
